@@ -254,6 +254,10 @@ def generate(tier, seed, path):
             cases += vc.read_cases(os.path.join(cdir, f))
     cases += gen_exact(rng, thorough)
     cases += gen_stat(rng, thorough)
+    if thorough:
+        # further parameter draws for the statistical and geometry runs
+        for extra in (1, 2):
+            cases += gen_stat(random.Random(seed * 104729 + 13 + 7919 * extra), thorough)
     with open(path, "w") as f:
         f.write("\n".join(cases) + "\n")
     return cases
